@@ -11,6 +11,8 @@ VARIABLES l, bad, nbad, ntr
 tvars == <<content, absent, phase, l, bad, nbad, ntr>>
 
 MaxBad == 40
+\* deviations are kept per class (operation, failed checks, deviation flags): a flood of one class never hides another
+KeepBad(bd, op, fl, dv) == Cardinality({b \in bd : b[3] = op /\ b[4] = fl /\ b[5] = dv}) < 6 /\ Cardinality(bd) < 40 * MaxBad
 ToSet(s) == {s[i] : i \in DOMAIN s}
 Flag(cond, name) == IF cond THEN {} ELSE {name}
 FromItems(items) ==
@@ -56,7 +58,7 @@ TraceNext ==
          /\ LET f == IF e.op = "syncinit" THEN EventFlags(e)
                      ELSE EventFlags(e)
             IN  /\ nbad' = IF f = {} THEN nbad ELSE nbad + 1
-                /\ bad' = IF f = {} \/ Cardinality(bad) >= MaxBad THEN bad
+                /\ bad' = IF f = {} \/ ~KeepBad(bad, e.op, f, IF e.op = "repair" /\ ~e.samever THEN {"RepairOtherVersion"} ELSE {}) THEN bad
                           ELSE bad \cup {<<e.tid, l, e.op, f, IF e.op = "repair" /\ ~e.samever THEN {"RepairOtherVersion"} ELSE {}>>}
 
 TraceSpec == TraceInit /\ [][TraceNext]_tvars
